@@ -142,8 +142,10 @@ def decide(pid, tier, seed, mod, targets, results, opts, t_start):
     disagreements = []
     # obligations belonging to this property only (a sidecar may tag clauses with other ids as well)
     mine = [o for o in obs if o["property"] == pid]
-    n_total = len(mine)
-    n_dis = sum(1 for o in mine if o["status"] == "discharged")
+    standins = [o for o in mine if o["backend"].startswith("bounded")]       # bounded stand-ins: never counted as proved
+    proofobs = [o for o in mine if not o["backend"].startswith("bounded")]
+    n_total = len(proofobs)
+    n_dis = sum(1 for o in proofobs if o["status"] == "discharged")
     for o in mine:
         if o["status"] == "discharged":
             continue
@@ -164,6 +166,9 @@ def decide(pid, tier, seed, mod, targets, results, opts, t_start):
             except Exception:
                 replay_res = (None, "replay harness crashed: " + traceback.format_exc()[-400:])
             o["replay"] = {"confirmed": replay_res[0], "detail": replay_res[1]}
+        if o["status"] == "refuted" and o["backend"].startswith("bounded") and o.get("model") is not None and replay_res is None:
+            o["replay"] = {"confirmed": True, "detail": "failing input found natively on the real code by the bounded stand-in; model = that input"}
+            replay_res = (True, "")
         if o["status"] == "refuted" and o["backend"] == "ground-eval" and o.get("model") is not None and replay_res is None:
             # the witness of a ground obligation is the offending entry of the program text itself, re-read from /repo
             o["replay"] = {"confirmed": True, "detail": "ground obligation evaluated on the working tree; model = the offending entry"}
@@ -221,7 +226,7 @@ def decide(pid, tier, seed, mod, targets, results, opts, t_start):
     for o in degraded:
         lines.append(f"DEGRADED obligation={o['id']} status={o['status']}: proof step failed, bounded search found no failing input")
     # evidence
-    proved_all = (n_dis == n_total and n_total > 0 and not known_hit and not errors)
+    proved_all = (n_dis == n_total and n_total > 0 and not known_hit and not errors and not violations)
     level = getattr(mod, "LEVEL", "proof") if proved_all else "other"
     samples = [{k: o[k] for k in ("id", "kind", "status", "backend", "ms", "goal", "path")} for o in mine[:6]]
     non = [{k: o[k] for k in ("id", "kind", "status", "backend", "detail", "model")} for o in mine if o["status"] != "discharged"][:10]
@@ -248,6 +253,8 @@ def decide(pid, tier, seed, mod, targets, results, opts, t_start):
         "undecided": [o["id"] for o in undecided],
         "dropped_by_extraction": DROPPED,
         "bounded": getattr(mod, "BOUNDED", []),
+        "bounded_standin_checks": {"run": len(standins), "passed": sum(1 for o in standins if o["status"] == "discharged"),
+                                    "note": "bounded stand-ins, not counted in obligations/discharged"},
         "explanation": explanation or (
             "Obligations generated from the current /repo sources by pyvc (ast -> symbolic execution -> z3/cvc5); "
             "see DESIGN.md section 3."),
@@ -278,8 +285,28 @@ DROPPED = [
 ]
 
 
+def replay_main(path):
+    """Re-decide the obligation recorded in a replay file against the current /repo tree."""
+    with open(path) as f:
+        rec = json.load(f)
+    pid, oid = rec["property"], rec["obligation"]
+    t0 = time.time()
+    mod, targets, results, opts = run_property(pid, "quick", 0, None)
+    code, lines = decide(pid, "quick", 0, mod, targets, results, opts, t0)
+    hit = [ln for ln in lines if ln.startswith("VIOLATION") and f"obligation={oid}" in ln]
+    print(json.dumps({"obligation": oid, "recorded_model": rec.get("model"), "recorded_replay": rec.get("replay")}, default=str)[:2000])
+    if hit:
+        print(hit[0])
+        return 1
+    print(f"replay: obligation {oid} is not violated on the current tree")
+    return 0 if code in (0, 1) else code
+
+
 def main(argv=None):
     import argparse
+    argv = list(sys.argv[1:] if argv is None else argv)
+    if argv and argv[0] == "--replay":
+        return replay_main(argv[1])
     ap = argparse.ArgumentParser()
     ap.add_argument("pid")
     ap.add_argument("--tier", default=os.environ.get("VERIF_TIER", "quick"))
